@@ -225,7 +225,8 @@ class SmtFlow:
     def run(self, body, stack, events, depth=0):
         """returns the list of (stack, events) at the end of the block, one per path"""
         states = [(list(stack), list(events))]
-        for node in body:
+        from .masm import expand
+        for node in expand(self.m, body, inline=False):
             nxt = []
             for st, ev in states:
                 if node[0] == "ins":
